@@ -206,7 +206,9 @@ def install():
 
     # ---- reindexed
     def re_requires(self, mapping=None, copy=True, shift=True, assume_unique=False):
-        if not wf_ok(self) or assume_unique or len(self.shape) not in (1, 2):
+        # assume_unique=True requires that no row is shared by two merged entries: merged entries have the same
+        # higher coordinates, so for a well-formed (exclusive) index this always holds
+        if not wf_ok(self) or len(self.shape) not in (1, 2):
             return False
         if mapping is not None:
             if not isinstance(mapping, dict) or any(type(k) is not int or type(v) is not int for k, v in mapping.items()):
